@@ -362,3 +362,50 @@ pub mod onion {
 		}
 	}
 }
+
+/// Stateless inbound-payment secrets ([`crate::ln::inbound_payment`]): the crate-private `verify`
+/// and `create_for_spontaneous_payment`, and the already-expanded keys, for the C04 differential.
+pub mod inbound {
+	use crate::ln::inbound_payment::{self, ExpandedKey};
+	use crate::ln::msgs::FinalOnionHopData;
+	use crate::types::payment::{PaymentHash, PaymentPreimage, PaymentSecret};
+	use crate::util::logger::Logger;
+	use alloc::vec::Vec;
+
+	/// [`crate::ln::inbound_payment::verify`]; `payment_metadata` is decrypted in place as the
+	/// real function does.
+	pub fn verify<L: Logger>(
+		payment_hash: PaymentHash, payment_secret: PaymentSecret, total_msat: u64,
+		payment_metadata: Option<&mut Vec<u8>>, highest_seen_timestamp: u64, keys: &ExpandedKey,
+		logger: &L,
+	) -> Result<(Option<PaymentPreimage>, Option<u16>), ()> {
+		let payment_data = FinalOnionHopData { payment_secret, total_msat };
+		inbound_payment::verify(
+			payment_hash,
+			&payment_data,
+			payment_metadata,
+			highest_seen_timestamp,
+			keys,
+			logger,
+		)
+	}
+
+	/// [`crate::ln::inbound_payment::create_for_spontaneous_payment`]
+	pub fn create_for_spontaneous_payment(
+		keys: &ExpandedKey, min_value_msat: Option<u64>, invoice_expiry_delta_secs: u32,
+		current_time: u64, min_final_cltv_expiry_delta: Option<u16>,
+	) -> Result<PaymentSecret, ()> {
+		inbound_payment::create_for_spontaneous_payment(
+			keys,
+			min_value_msat,
+			invoice_expiry_delta_secs,
+			current_time,
+			min_final_cltv_expiry_delta,
+		)
+	}
+
+	/// `(info_key, ldk_pmt_hash_key, user_pmt_hash_key, spontaneous_pmt_key, metadata_enc_key)`
+	pub fn expanded_key_parts(keys: &ExpandedKey) -> [[u8; 32]; 5] {
+		keys.verif_key_parts()
+	}
+}
